@@ -16,6 +16,7 @@ pub fn c20(tier: &str) -> i32 {
         g("lengths-response", 16, "each u32 length/count field (column count, row count, every string length) of each canonical response encoding set to 0, len-1, len+1, 2^24+1, 2^31, 2^32-1"),
         g("mutate-request", 4, "every strict prefix and every single-byte substitution (255 values) at every position of every canonical request encoding of <= 64 bytes, unframed and framed"),
         g("mutate-response", 8, "the same for canonical response encodings (quick: <= 40 bytes, thorough: <= 64 bytes)"),
+        g("server-rows", 64, "the real axmos-server binary on a free port, a TCP client and an in-process database fed the same statements: every select list of length 1..3 over the columns of t (with repetition: neighbouring and separated columns of one name) x {all rows, one row, no row}; every 2- and 3-column list over both tables of a join; colliding aliases; star over joins; aggregates; DML, DDL and failing statements - the decoded response must be rectangular and equal the statement's output columns and rows"),
     ];
     run_flat(
         "C20",
@@ -26,7 +27,7 @@ pub fn c20(tier: &str) -> i32 {
         groups,
         120,
         &[
-            "decided at the codec/framing API (Request/Response::to_bytes/from_bytes, read_message/write_message, send_*/recv_*); the server binary's socket loop is out of scope",
+            "decided at the codec/framing API (Request/Response::to_bytes/from_bytes, read_message/write_message, send_*/recv_*); of the server binary only the rendering of results (group server-rows: one connection, autocommit statements) is exercised, not its connection handling",
             "workers run with RLIMIT_AS = 6 GiB: an allocation driven by an unvalidated length field kills the worker and is attributed to its input",
             "invalid UTF-8 inside a string field is replaced by the decoder (from_utf8_lossy); that is not counted as accepted garbage because a sender can only put valid strings on the wire",
             "result sets are rectangular (every row has as many cells as there are columns)",
@@ -163,6 +164,7 @@ pub fn c16(tier: &str) -> i32 {
         g("mutations", 256, "every token-prefix, single-token deletion, duplication and substitution by each vocabulary token of 20 valid statements"),
         g("nesting", 1, "parentheses, NOT, unary minus, +, AND, IN-list, VALUES-list and sub-select nesting to depth 1..20000"),
         g("typed-arith", 512, "every ordered pair of 17 operands (a column of each SQL type INT, BIGINT, UINT, BIGUINT, FLOAT, DOUBLE, TEXT, BOOLEAN and literals 0, 1, -1, 0.0, 2.5, NULL, 'a', 2147483647, 9223372036854775807) under + - * / % = < >= plus unary minus, ABS and SUM/AVG of every operand, in the select list and in WHERE, against each of 6 rows (zeros, ones, negatives, NULLs, the largest and the smallest value of every numeric type)"),
+        g("long-names", 512, "failing statements whose error text echoes a table / column name of every length 1..300 made of 1-, 2-, 3- or 4-byte letters after 0-3 ASCII characters, and 100-1000-letter non-ASCII string literals and tokens"),
         g("typed", 8, "81 well-formed statements with wrong types, unknown names, zero divisors, NULL arguments, arity errors, HAVING/CASE/sub-queries, 1 MiB literals, against 3 schemas (plain, UNIQUE key, NOT NULL columns): result + probe + data unchanged after an error"),
         g("typed-session", 4, "the same statements at every position (before, between, after) of a three-statement session that must keep working and commit"),
     ];
